@@ -5,7 +5,37 @@ From GV Require Import Model.Corr Model.Vi.
 Inductive vicase :=
 | CElbo (target family : gast) (obs : cm) (targs qargs : value) (tape : list value) (o : Z)
 | CVi (a b lr : Q) (n : nat) (init final : Q) (hist : list Q)
+(* built-in reparameterised family: per-coordinate mean duals, Cholesky-factor duals, scripted
+   noise; target x ~ N(0,I), y ~ N(w.x, 1); op = observed ELBO with the transcendental constants
+   removed, ot = observed directional derivative *)
+| CFam (m : list (Q * Q)) (C : list (list (Q * Q))) (eps w : list Q) (y : Q) (op ot : Q)
 | CFlagV (ok : bool).
+
+Definition dq := (Q * Q)%type.
+Local Open Scope Q_scope.
+Definition dqadd (a b : dq) : dq := (Qred (fst a + fst b), Qred (snd a + snd b)).
+Definition dqmul (a b : dq) : dq := (Qred (fst a * fst b), Qred (fst a * snd b + snd a * fst b)).
+Definition dqc (x : Q) : dq := (x, 0).
+Definition dqsum (l : list dq) : dq := fold_right dqadd (dqc 0) l.
+(** the reparameterised draw  x = m + C eps  as dual numbers *)
+Definition fam_draw (m : list dq) (C : list (list dq)) (eps : list Q) : list dq :=
+  map (fun mr : dq * list dq =>
+         dqadd (fst mr) (dqsum (map (fun ce : dq * Q => dqmul (fst ce) (dqc (snd ce))) (combine (snd mr) eps))))
+      (combine m C).
+Fixpoint diag {A} (C : list (list A)) (i : nat) : list A :=
+  match C with [] => [] | r :: C' => match nth_error r i with Some x => [x] | None => [] end ++ diag C' (S i) end.
+Definition fam_elbo (m : list dq) (C : list (list dq)) (eps w : list Q) (y : Q) : dq :=
+  let xs := fam_draw m C eps in
+  let s1 := dqsum (map (fun x => dqmul x x) xs) in
+  let lin := dqsum (map (fun wx : Q * dq => dqmul (dqc (fst wx)) (snd wx)) (combine w xs)) in
+  let r := dqadd (dqc y) (dqmul (dqc (-1)) lin) in
+  let e2 := fold_right (fun e acc => e * e + acc) 0 eps in
+  let rat := dqadd (dqadd (dqmul (dqc (-1 # 2)) s1) (dqmul (dqc (-1 # 2)) (dqmul r r))) (dqc ((1 # 2) * e2)) in
+  (* d/dt sum_i ln C_ii *)
+  let dlog := fold_right (fun c acc => snd c / fst c + acc) 0 (diag C 0) in
+  (fst rat, Qred (snd rat + dlog)).
+Definition qclose3 (x y : Q) : bool := Qle_bool (Qabs (x - y)) ((1 # 1000) + (1 # 1000) * Qabs y).
+Local Close Scope Q_scope.
 
 Definition qclose5 (x y : Q) : bool := Qle_bool (Qabs (x - y)) ((1 # 10000) + (1 # 10000) * Qabs y).
 Fixpoint qs_close5 (a b : list Q) : bool :=
@@ -31,6 +61,9 @@ Definition check_vicase (c : vicase) : bool * bool * bool :=
       let grad := fun (_ : nat) (p : Q) => Qred (- (2 # 1) * a * (p - b)) in
       let '(fin, h) := ascent grad lr n 0 init in
       let ok := qclose5 final fin && qs_close5 hist h in (ok, ok, ok)
+  | CFam m C eps w y op ot =>
+      let r := fam_elbo m C eps w y in
+      let ok := qclose3 op (fst r) && qclose3 ot (snd r) in (ok, ok, ok)
   | CFlagV ok => (ok, ok, ok)
   end.
 
